@@ -303,9 +303,14 @@ func newGeneratorInterp(L *Loaded) (*Interp, func() *Obj) {
 		for f, k := range map[string]string{"ddpintlist": "int", "ddpfloatlist": "float", "ddpbytelist": "byte", "ddpboollist": "bool", "ddpcharlist": "char", "ddpstringlist": "string", "ddpanylist": "any"} {
 			c.set(f, &GenT{Kind: "list", Elem: &GenT{Kind: k}})
 		}
-		c.set("cbb", newObj("ir.Block"))
+		eb := newObj("ir.Block")
+		eb.set("Term", NilV{})
+		c.set("cbb", eb)
 		c.set("cf", newObj("ir.Func"))
-		c.set("scp", newObj("scope"))
+		amb := newObj("scope")
+		amb.set("enclosing", newObj("scope"))
+		amb.set("ambient", boolV(true))
+		c.set("scp", amb)
 		c.set("latestReturn", NilV{})
 		c.set("latestReturnType", NilV{})
 		c.set("latestIsTemp", boolV(false))
@@ -330,7 +335,7 @@ func newGeneratorInterp(L *Loaded) (*Interp, func() *Obj) {
 		cObj.set("latestReturn", v)
 		cObj.set("latestReturnType", g)
 		cObj.set("latestIsTemp", temp)
-		in.event("evaluate:"+string(name), "", call.Pos(), cObj.get("cbb"), v)
+		in.event("evaluate:"+string(name), "", call.Pos(), cObj.get("cbb"), v, cObj.get("scp"))
 		return TupleV{v, g, temp}, true
 	}
 	in.Models["compiler.(*compiler).err"] = func(in *Interp, pkg *packages.Package, call *ast.CallExpr, recv Val, args []Val) (Val, bool) {
@@ -369,17 +374,24 @@ func newGeneratorInterp(L *Loaded) (*Interp, func() *Obj) {
 		return args[0], true
 	}
 	in.Models["compiler.(*scope).addTemporary"] = func(in *Interp, pkg *packages.Package, call *ast.CallExpr, recv Val, args []Val) (Val, bool) {
-		in.event("addTemp", "", call.Pos(), args[0], args[1])
+		in.event("addTemp", "", call.Pos(), args[0], args[1], recv, cObj.get("cbb"))
 		return TupleV{args[0], args[1]}, true
 	}
 	in.Models["compiler.(*scope).protectTemporary"] = noop
 	in.Models["compiler.(*scope).unprotectTemporary"] = noop
 	in.Models["compiler.newScope"] = func(in *Interp, pkg *packages.Package, call *ast.CallExpr, recv Val, args []Val) (Val, bool) {
-		in.event("newScope", "", call.Pos())
-		return newObj("scope"), true
+		sc := newObj("scope")
+		sc.set("enclosing", args[0])
+		in.event("newScope", "", call.Pos(), sc, cObj.get("cbb"))
+		return sc, true
 	}
 	in.Models["compiler.(*compiler).exitScope"] = func(in *Interp, pkg *packages.Package, call *ast.CallExpr, recv Val, args []Val) (Val, bool) {
-		in.event("exitScope", "", call.Pos())
+		in.event("exitScope", "", call.Pos(), args[0], cObj.get("cbb"))
+		if sc, ok := args[0].(*Obj); ok {
+			if e, ok := sc.get("enclosing").(*Obj); ok {
+				return e, true
+			}
+		}
 		return newObj("scope"), true
 	}
 	in.Models["compiler.(*compiler).NewAlloca"] = func(in *Interp, pkg *packages.Package, call *ast.CallExpr, recv Val, args []Val) (Val, bool) {
@@ -413,7 +425,11 @@ func newGeneratorInterp(L *Loaded) (*Interp, func() *Obj) {
 				name = string(s)
 			}
 		}
-		in.event("visit:"+name, "", call.Pos(), cObj.get("cbb"))
+		st := ""
+		if tv := pkg.TypesInfo.TypeOf(call.Args[0]); tv != nil {
+			st = tv.String()
+		}
+		in.event("visit:"+name, st, call.Pos(), cObj.get("cbb"), cObj.get("scp"))
 		return TupleV(nil), true
 	}
 	in.Models["compiler.(*scope).lookupVar"] = func(in *Interp, pkg *packages.Package, call *ast.CallExpr, recv Val, args []Val) (Val, bool) {
